@@ -193,10 +193,9 @@ impl ElfLinker {
                 if self.symbols.contains_key(symbol.name()) {
                     continue;
                 }
-                self.symbols.insert(
-                    symbol.name().to_string(),
-                    elf.base_address() + symbol.address(),
-                );
+                // exported_symbols() reports addresses that already include the base
+                self.symbols
+                    .insert(symbol.name().to_string(), symbol.address());
             }
         }
 
